@@ -172,10 +172,144 @@ and is counted as positional, hence the line is rejected. -/
 theorem C14_stray_word_rejected (w : Bytes) (rest : List Bytes)
     (hw : ∀ c tl, w ≠ 45 :: c :: tl) : parseArgs (w :: rest) = none := by
   unfold parseArgs
+  have hc : classify w = .nonflag := by
+    unfold classify
+    split
+    · rename_i c tl; exact absurd rfl (hw c tl)
+    · rfl
   have : parseLoop ((w :: rest).length + 1) (w :: rest) {} = some ({}, (w :: rest).length) := by
-    simp only [List.length_cons, parseLoop]
+    simp only [List.length_cons, parseLoop, hc]
   rw [this]
   simp
+
+/-- number of -C / -F occurrences among the flags visited -/
+def nFC (l : List Nat) : Nat := (l.filter (fun x => x == 67 || x == 70)).length
+
+theorem nFC_append (a b : List Nat) : nFC (a ++ b) = nFC a + nFC b := by
+  simp [nFC, List.filter_append]
+
+/-- one flag occurrence: it is recorded as visited, and it adds exactly one filter if it is -F or
+-C and none otherwise. -/
+theorem setFlag_accounting {fs fs1 : FS} {n : Nat} {v : Bytes} (h : setFlag fs n v = some fs1) :
+    fs1.visited = fs.visited ++ [n] ∧
+    fs1.filters.length = fs.filters.length + (if n == 67 || n == 70 then 1 else 0) := by
+  unfold setFlag at h
+  simp only at h
+  by_cases h97 : (n == 97) = true
+  · have : n = 97 := by simpa using h97
+    subst this
+    simp only [beq_self_eq_true, if_true] at h
+    cases hs : setAdd fs.append v with
+    | none => rw [hs] at h; simp at h
+    | some x => rw [hs] at h; simp at h; subst h; simp
+  rw [if_neg h97] at h
+  by_cases h65 : (n == 65) = true
+  · have : n = 65 := by simpa using h65
+    subst this
+    simp only [beq_self_eq_true, if_true] at h
+    cases hs : setAdd fs.prepend v with
+    | none => rw [hs] at h; simp at h
+    | some x => rw [hs] at h; simp at h; subst h; simp
+  rw [if_neg h65] at h
+  by_cases h67 : (n == 67) = true
+  · have : n = 67 := by simpa using h67
+    subst this
+    simp only [beq_self_eq_true, if_true] at h
+    cases hs : matchComparison v with
+    | none => rw [hs] at h; simp at h
+    | some x => rw [hs] at h; simp at h; subst h; simp
+  rw [if_neg h67] at h
+  by_cases h70 : (n == 70) = true
+  · have : n = 70 := by simpa using h70
+    subst this
+    simp only [beq_self_eq_true, if_true] at h
+    cases hs : matchFilter v with
+    | none => rw [hs] at h; simp at h
+    | some x => rw [hs] at h; simp at h; subst h; simp
+  rw [if_neg h70] at h
+  have hno : (n == 67 || n == 70) = false := by simp [h67, h70]
+  rw [hno]
+  by_cases h83 : (n == 83) = true
+  · rw [if_pos h83] at h; simp at h; subst h; simp
+  rw [if_neg h83] at h
+  by_cases h112 : (n == 112) = true
+  · rw [if_pos h112] at h
+    cases hs : setPerms fs.perms v with
+    | none => rw [hs] at h; simp at h
+    | some x => rw [hs] at h; simp at h; subst h; simp
+  rw [if_neg h112] at h
+  by_cases h119 : (n == 119) = true
+  · rw [if_pos h119] at h
+    split at h
+    · simp at h
+    · simp at h; subst h; simp
+  rw [if_neg h119] at h
+  by_cases h107 : (n == 107) = true
+  · rw [if_pos h107] at h; simp at h; subst h; simp
+  rw [if_neg h107] at h
+  simp at h
+
+/-- Accounting over the whole line: however the flag loop ends, the number of filters it has
+produced equals the number of -F and -C occurrences it has visited — each contributes exactly
+one filter, none is dropped and none is invented. -/
+theorem parseLoop_accounting (fuel : Nat) (args : List Bytes) (fs fs' : FS) (n : Nat)
+    (h : parseLoop fuel args fs = some (fs', n)) :
+    fs'.filters.length + nFC fs.visited = fs.filters.length + nFC fs'.visited := by
+  induction fuel generalizing args fs with
+  | zero => simp [parseLoop] at h
+  | succ fuel ih =>
+    cases args with
+    | nil => simp [parseLoop] at h; obtain ⟨rfl, _⟩ := h; rfl
+    | cons s rest =>
+      have cont : ∀ (k : Nat) (v : Bytes) (rest' : List Bytes),
+          (setFlag fs k v).bind (parseLoop fuel rest') = some (fs', n) →
+          fs'.filters.length + nFC fs.visited = fs.filters.length + nFC fs'.visited := by
+        intro k v rest' hb
+        obtain ⟨fs1, h1, h2⟩ := Option.bind_eq_some_iff.mp hb
+        obtain ⟨hv, hf⟩ := setFlag_accounting h1
+        have := ih rest' fs1 h2
+        rw [hv, nFC_append, hf] at this
+        have e : nFC [k] = (if k == 67 || k == 70 then 1 else 0) := by
+          simp only [nFC, List.filter_cons, List.filter_nil]
+          split <;> simp
+        rw [e] at this
+        omega
+      have dcase : ∀ (b : Bool), parseLoop fuel rest { fs with deleteAll := b, visited := fs.visited ++ [68] } = some (fs', n) →
+          fs'.filters.length + nFC fs.visited = fs.filters.length + nFC fs'.visited := by
+        intro b hb
+        have := ih rest _ hb
+        simp only [nFC_append] at this
+        have e : nFC [68] = 0 := by decide
+        rw [e] at this
+        simpa using this
+      unfold parseLoop at h
+      cases hc : classify s with
+      | nonflag => rw [hc] at h; simp only [Option.some.injEq, Prod.mk.injEq] at h; obtain ⟨rfl, _⟩ := h; rfl
+      | term => rw [hc] at h; simp only [Option.some.injEq, Prod.mk.injEq] at h; obtain ⟨rfl, _⟩ := h; rfl
+      | bad => rw [hc] at h; simp at h
+      | flag k hasValue value =>
+        rw [hc] at h
+        simp only at h
+        split at h
+        · split at h
+          · split at h
+            · exact dcase _ h
+            · simp at h
+          · exact dcase _ h
+        · split at h
+          · split at h
+            · exact cont _ _ _ h
+            · split at h
+              · exact cont _ _ _ h
+              · simp at h
+          · simp at h
+
+/-- … hence for an accepted line: the rule's filters are as many as the -F and -C occurrences. -/
+theorem C14_one_filter_per_flag (args : List Bytes) (fs : FS) (n : Nat)
+    (h : parseLoop (args.length + 1) args {} = some (fs, n)) :
+    fs.filters.length = nFC fs.visited := by
+  have := parseLoop_accounting _ _ _ _ _ h
+  simpa [nFC] using this
 
 /-- non-vacuity: a line that is accepted, and the same line with a stray word. -/
 example : (parseArgs [ofString "-w", ofString "/etc/passwd", ofString "-p", ofString "r"]).isSome = true ∧
